@@ -1262,7 +1262,8 @@ func c09ReadFamily(c *Ctx, pool *Pool) {
 // ---------------------------------------------------------------------------
 
 func checkC09(c *Ctx) {
-	c.Assume("indices are integers; fractional indices (truncated by the code) are not fixed by the statement and are not generated")
+	c.Assume("in the history families indices are integers; the index family (MC_HeapIdx) uses every number in quarters from beyond the start to beyond the end of the array: the position addressed is the integer part (toward zero), counted from the end when negative; what a NON-number index of an array (\"1\", true, null) addresses is not fixed: there only everything outside that array is compared, and a refusal is accepted")
+	c.Assume("rounds family (MC_HeapRounds): one pattern rule that prints $, writes below $ and prints $ again, over 1-3 files x 1-3 values x up to two root selectors; selectors that select nothing and writes the statement leaves open (a member of a number read by op=, ++ on a container) are not generated; BEGINFILE / ENDFILE are C02's")
 	c.Assume("what a READ through an unset variable (x.k, x[0] with x never assigned) does to that variable is left open: the value read (null) and every other variable and $ are compared, the variable itself is not, and the history ends there")
 	c.Assume("assignment THROUGH an explicit null (o.n.k = 1 with o.n null), a key of an array, an index of an object, `x = y` with y unset, arithmetic updates of a container (C05), ++/-- on a member of a scalar (C11) and insertions that would create a cycle (C17/C04) are not generated: the statement does not fix them")
 	c.Assume("of the methods only pop, popfirst and push(6) on arrays (reached through any path, also through a second reference) and pluck(\"k\", \"n\") on objects are used; the other methods are C15's / C16's; an empty array written as null by -o is C04's matter and tolerated in the -o comparison")
@@ -1328,15 +1329,51 @@ func checkC09(c *Ctx) {
 		})
 	}
 	famRead := func() { fam("read", func() { c09ReadFamily(c, pool) }) }
+	famIndex := func() {
+		fam("index", func() {
+			if c.Thorough() {
+				c09IndexFamily(c, pool, "index", c09IdxCfg(6, true, false), stats)
+				c09IndexFamily(c, pool, "index2", c09IdxCfg(3, false, true), stats)
+			} else {
+				c09IndexFamily(c, pool, "index", c09IdxCfg(4, true, false), stats)
+			}
+		})
+	}
+	famRounds := func() {
+		fam("rounds", func() {
+			if c.Thorough() {
+				c09RoundsFamily(c, pool, c09RoundsCfg(2, true), stats) // (lists of three selectors: 7x the states for nothing new over pairs)
+			} else {
+				c09RoundsFamily(c, pool, c09RoundsCfg(2, false), stats)
+			}
+		})
+	}
 	if c.Thorough() { // depth alone takes as long as breadth and names, or as expr and given
 		lane(famDepth)
 		lane(famBreadth, famNames, famRead)
 		lane(famExpr, famGiven)
+		lane(famIndex, famRounds)
 	} else {
 		lane(famDepth, famBreadth)
 		lane(famNames, famExpr, famGiven, famRead)
+		lane(famIndex, famRounds)
 	}
 	lanes.Wait()
+
+	if only == "" || only == "index" {
+		for _, t := range c09IdxMustTags {
+			if stats.tags[t] == 0 {
+				infra("C09: vacuity guard: nothing exercised %q (MC_HeapIdx changed?)", t)
+			}
+		}
+	}
+	if only == "" || only == "rounds" {
+		for _, t := range c09RoundsMustTags {
+			if stats.tags[t] == 0 {
+				infra("C09: vacuity guard: nothing exercised %q (MC_HeapRounds changed?)", t)
+			}
+		}
+	}
 
 	for _, t := range c09MustTags {
 		if stats.tags[t] == 0 && only == "" {
@@ -1351,8 +1388,8 @@ func checkC09(c *Ctx) {
 		"expr: 12 prefixes (x a number / [8, 9] / {k: 3} / $.k / unset / arrays in and out of order, mixed, of one and no element, nested) x their source places (a variable, an element, a member, a missing member, in x and in $) x {28 (thorough 37) expression forms over the place: path, (p = v), (p op= v), ++/--, match expressions whose arm is a place / a bound name / a step, calls that return the parameter / an element / a member / a missing member / the global / an assignment, sort, pop, popfirst, push, pluck, literals} "+
 		"x {12 stores (variable, member, element, into $, as element / member of a literal, through id(), through a match, chained), 5 calls and 5 loops whose body stores to or steps the parameter / loop variable, 2 push, match statements with 5 pattern lists (name, [p, q], 1 | [p, q], [8, q], [p, [q, 3]]) x up to 11 bodies that store to / step a bound name or a part of it (quick: over 6 subject forms)}, then a step of / a store to every scalar place that exists below the variables the statement mentions (alternating; thorough: both); "+
 		"given: seeded random histories of up to sim_depth operations over any path of depth <= 3, and sim_expression_histories ones whose statements put a random expression (nesting <= 2) into a random sink) with x, y, $ after every operation; each is run on the document as root object and as element 0 of a root array; "+
-		"non-trivial = at least two operations; distinct by program text. Read family: seeded random assignment-free expressions, -o document vs input")
-	c.Set("checker_cmd", "tlc MC_Heap (Mode depth / breadth / names / given); replay through lang.EvalProgram + GetRootJson")
+		"non-trivial = at least two operations; distinct by program text. Index family: MC_HeapIdx emits every (array length 0..MaxLen) x (site: a variable, a member, $.a, $.b[0]) x (read, = 7, += 2, -= 2, += \"s\", ++ / -- prefix and postfix) x (index: every multiple of 1/4 in -(MaxLen+2)..MaxLen+2, and \"1\" \"-1\" \"0\" \"1.5\" true false null), thorough also two operations at one site, with the expected result, x, y and $; each is run with the index written as a literal, held in a variable and computed by a division, on the document as root and as element 0 of a root array (non-trivial = fractional index). Rounds family: MC_HeapRounds emits every (input: 5 (thorough 8) shapes of files x values over two documents) x (list of <= MaxSels root selectors over $ $.s $.s[0] $.s[-1] $.o $.o.q $.n, or none) x (9 writes below $) x (g = $ never / in the first round / in every round) with $ before and after the write of every round, g at END and the -o document (non-trivial = more than one round source). Read family: seeded random assignment-free expressions, -o document vs input")
+	c.Set("checker_cmd", "tlc MC_Heap (Mode depth / breadth / names / expr / given), MC_HeapIdx, MC_HeapRounds; replay through lang.EvalProgram + GetRootJson")
 	c.Set("bounds", map[string]any{"depth_ops": depth, "sim_histories": simN, "sim_expression_histories": simX, "sim_depth": simD})
 	c.Set("histories", map[string]any{"replayed": stats.n, "ending_in_expected_error": stats.errs, "runs_needing_open_deviation": stats.dev})
 }
